@@ -22,8 +22,11 @@ run() { # prop
 : > $out/results.txt
 build || { echo "baseline build failed"; tail -20 $out/build.log; exit 2; }
 for p in C05 C12 C13 C14 C15 C18 C20; do echo "baseline $p rc=$(run $p)" | tee -a $out/results.txt; done
+# RECHECK_STRIDE=n RECHECK_OFFSET=k: every n-th change only, starting with the k-th (a sample)
+n=0
 for d in $here/seeded/C*/; do
   id=$(basename $d); p=${id:0:3}
+  n=$((n+1)); if [ $(( (n + ${RECHECK_OFFSET:-0}) % ${RECHECK_STRIDE:-1} )) -ne 0 ]; then continue; fi
   git -C $repo checkout -q -- . ; point
   if ! git -C $repo apply $d/patch.diff 2>/dev/null; then echo "$id $p rc=apply-failed" | tee -a $out/results.txt; continue; fi
   if ! build; then echo "$id $p rc=build-failed" | tee -a $out/results.txt; continue; fi
